@@ -944,6 +944,9 @@ class UserCellsImpl(CellsImpl):
 
         self.parent.cells.rename_item(old_name, name)
 
+    def set_allow_none(self, value):
+        self.spmgr.set_cells_allow_none(self, value)
+
     def on_set_property(self, flags, define, func, enable_cache):
         """Set formula and/or is_cached"""
 
